@@ -5,6 +5,7 @@
 (* and classifies it; `vh-wire replay` turns the mutant into bytes and asks the real interceptors.                  *)
 EXTENDS WireMutants, Json
 CONSTANTS Deltas, Depth, Pairs
+MCDeltas == {-1, 0, 10, 100}
 
 Desc == ndJsonDeserialize("describe.ndjson")
 RealSchemas == Desc[1].schemas
